@@ -275,6 +275,7 @@ def losslessEncoder : Annot where
     ("useSubtractGreen", .reset, ""),
     ("usePredict", .reset, ""),
     ("useCrossColor", .reset, ""),
+    ("hasAlpha", .reset, "set to false in acquireEncoder and recomputed from the input in Encode/EncodeToWriter"),
     ("hashChain", .rewritten, "see lossless.HashChain; replaced when too small (E:530-532)"),
     ("bestRefs", .rewritten, "BackwardRefs.Reset() (length 0) at E:541-545 before use; append only"),
     ("candidateRefs", .rewritten, "Reset() at EB:714 / E:719, and every generator starts with refs.Reset()"),
